@@ -102,7 +102,10 @@ class Lag(fabric.SeqHarness):
             fab.start()
             s.settle()
         calls = {}
+        split = len(p["pubs"]) // 2 if p["mode"] == "around-start" else None
         for k, (sig, prio) in enumerate(p["pubs"]):
+            if k == split:
+                fab.start()         # the delivery threads are made but do not run before the publisher blocks
             lab = "%s/e%d" % (sig, k)
             a = s.steps
             if prio is None:
@@ -251,7 +254,7 @@ def run(tier):
     ps = []
     for n in range(1, N + 1):
         for seq in itertools.product(alpha, repeat=n):
-            for mode in ("before-start", "started"):
+            for mode in ("before-start", "started") + (("around-start",) if n >= 2 else ()):
                 ps.append({"pubs": list(seq), "mode": mode})
     if not q:       # longer runs of equal priorities (heap shapes beyond 5 entries), one signal
         for n in (6, 7, 8):
